@@ -117,7 +117,8 @@ def evaluate(case: dict[str, Any], keep: list[int] | None, split: bool) -> tuple
     try:
         if split:
             (fres,) = ens.calculate(x, compute_functions=True, compute_gradients=False)
-            (gres,) = ens.calculate(x, compute_functions=False, compute_gradients=True)
+            # (whether the functions are evaluated once more here is the business of C06 / C07: the gradient result is the last one)
+            gres = ens.calculate(x, compute_functions=False, compute_gradients=True)[-1]
         else:
             fres, gres = ens.calculate(x, compute_functions=True, compute_gradients=True)
     except OptimizationAborted as exc:
